@@ -224,7 +224,7 @@ class CommonMethodsMixin:
             value as test_value
             """
             if pname not in new_instance or new_instance[pname] is None or \
-                    new_instance[pname].lower != test_value.lower:
+                    new_instance[pname].lower() != test_value.lower():
                 new_instance[pname] = replacement or test_value
 
         # Set the keys to default if they don't exist  are None,  or have
@@ -586,7 +586,7 @@ class CIMListenerDestinationProvider(CommonMethodsMixin, InstanceWriteProvider):
         # Validate  or fix other key values in the new instance
         def _fix_key_prop(pname, new_prop_value, replacement=None):
             if pname not in new_instance or \
-                    new_instance[pname].lower != new_prop_value.lower():
+                    new_instance[pname].lower() != new_prop_value.lower():
                 new_instance[pname] = replacement or new_prop_value
 
         # Set the keys to default if they don't exist or have invalid value
